@@ -166,3 +166,83 @@
             Err(()) => assert!(!((id >= 3 && id <= 0x0B) || id == 0x21)),
         }
     }
+
+    // ---- class-k contract of encode_multibyte_integer (used as a stub where the production code copies the encoding
+    //      into a Vec: CBMC needs concrete lengths there). mbi_in_class(v,k): the canonical encoding of v has k bytes.
+    pub(crate) fn mbi_in_class(v: u64, k: usize) -> bool {
+        if k == 1 { v < 0x80 } else if k >= 10 { false } else { (v >> (7 * (k - 1))) != 0 && (k == 9 || (v >> (7 * k)) == 0) && v <= u64::MAX / 2 }
+    }
+    static mut MBI_CLASS: [usize; 8] = [0; 8];
+    static mut MBI_CALLS: usize = 0;
+    static mut MBI_LEN: usize = 0;
+    /// classes of the successive encode calls the harness expects; after the schedule is exhausted it repeats (reader side
+    /// re-encodes the same numbers in the same order to recompute the CRC).
+    pub(crate) fn mbi_schedule(ks: &[usize]) {
+        unsafe {
+            let mut i = 0;
+            while i < ks.len() { MBI_CLASS[i] = ks[i]; i += 1; }
+            MBI_LEN = ks.len();
+            MBI_CALLS = 0;
+        }
+    }
+    pub(crate) fn encode_mbi_class_stub(value: u64, buf: &mut [u8]) -> Result<usize> {
+        let k = unsafe { let k = MBI_CLASS[MBI_CALLS % MBI_LEN]; MBI_CALLS += 1; k };
+        vk::assume(mbi_in_class(value, k));
+        assert!(buf.len() >= k);
+        let mut v = value;
+        let mut i = 0;
+        while i + 1 < k { buf[i] = (v as u8) | 0x80; v >>= 7; i += 1; }
+        buf[k - 1] = v as u8;
+        Ok(k)
+    }
+    /// proves the class-k contract against the real encoder: for every v in class k the real function returns k and
+    /// writes exactly the bytes the stub writes.
+    fn mbi_class_contract(k: usize) {
+        let v: u64 = vk::any();
+        vk::assume(mbi_in_class(v, k));
+        let mut a = [0u8; 10];
+        let mut b = [0u8; 10];
+        mbi_schedule(&[k]);
+        let ra = encode_multibyte_integer(v, &mut a);
+        let rb = encode_mbi_class_stub(v, &mut b);
+        assert!(matches!(ra, Ok(n) if n == k));
+        assert!(matches!(rb, Ok(n) if n == k));
+        assert!(a == b);
+        assert!(count_multibyte_integer_size_for_value(v) == k);
+    }
+    #[kani::proof]
+    #[kani::unwind(11)]
+    #[kani::stub(crate::error_invalid_data, crate::vk::err_invalid_data)]
+    fn c02_mbi_class_1() { mbi_class_contract(1); }
+    #[kani::proof]
+    #[kani::unwind(11)]
+    #[kani::stub(crate::error_invalid_data, crate::vk::err_invalid_data)]
+    fn c02_mbi_class_2() { mbi_class_contract(2); }
+    #[kani::proof]
+    #[kani::unwind(11)]
+    #[kani::stub(crate::error_invalid_data, crate::vk::err_invalid_data)]
+    fn c02_mbi_class_3() { mbi_class_contract(3); }
+    #[kani::proof]
+    #[kani::unwind(11)]
+    #[kani::stub(crate::error_invalid_data, crate::vk::err_invalid_data)]
+    fn c02_mbi_class_4() { mbi_class_contract(4); }
+    #[kani::proof]
+    #[kani::unwind(11)]
+    #[kani::stub(crate::error_invalid_data, crate::vk::err_invalid_data)]
+    fn c02_mbi_class_5() { mbi_class_contract(5); }
+    #[kani::proof]
+    #[kani::unwind(11)]
+    #[kani::stub(crate::error_invalid_data, crate::vk::err_invalid_data)]
+    fn c02_mbi_class_6() { mbi_class_contract(6); }
+    #[kani::proof]
+    #[kani::unwind(11)]
+    #[kani::stub(crate::error_invalid_data, crate::vk::err_invalid_data)]
+    fn c02_mbi_class_7() { mbi_class_contract(7); }
+    #[kani::proof]
+    #[kani::unwind(11)]
+    #[kani::stub(crate::error_invalid_data, crate::vk::err_invalid_data)]
+    fn c02_mbi_class_8() { mbi_class_contract(8); }
+    #[kani::proof]
+    #[kani::unwind(11)]
+    #[kani::stub(crate::error_invalid_data, crate::vk::err_invalid_data)]
+    fn c02_mbi_class_9() { mbi_class_contract(9); }
